@@ -38,7 +38,9 @@ MANIFEST = {
             "local connections): execute on a kept object runs its command only while the object's id is a live session of its target "
             "(remote) / the node's current local session (local, repaired code: finding F-C16-h), the request send_remote_command IS that "
             "operation on the first connection, after disconnect() the object is dead whether or not the message arrived, an ended id "
-            "stays dead over sequences that contain handle operations, a local session id never returns (is_active of a remote client "
+            "stays dead over sequences that contain handle operations, the reachable-state invariant survives handle operations, a local "
+            "session id never returns; a client logoff that reaches a target whose session manager is down removes the target's "
+            "connection and leaves its session list as it was (request level) (is_active of a remote client "
             "object is modelled as 'still a key of the dictionary', of a local object as an input). Tie: constants, "
             "comparison operators, guard shapes, the time-out decisions per session kind, every write to last_active_step and every "
             "account-editing statement / caller / request in the package regenerated from the source (Gen/Session.lean, obligations "
@@ -301,7 +303,7 @@ def run(ctx: Ctx):
             gc_case = dict(gc_case, ops=rig.with_handles(ctx.rng.fork(f"handles:{k}"), gc_case["cfg"], gc_case["ops"]))
         cases.append((f"gen:{k}", gc_case))
 
-    # quick tier: of every bounded-exhaustive family with more than 800 sequences a seeded sample of 800 is run (another sample for
+    # quick tier: of every bounded-exhaustive family with more than 550 sequences a seeded sample of 550 is run (another sample for
     # every VERIF_SEED; the thorough tier runs all of them): keeps the tier under its time limit on the loaded machine
     if not ctx.thorough:
         cases = _thin(ctx.rng.fork("thin"), cases, 550)
